@@ -90,4 +90,158 @@ theorem prune_only_pushed (c : RefCfg) (m : M Prim) (start : Bytes) (v : Visit A
     simp only [hn] at hv ⊢
     cases l <;> cases hf : c.follows v.ent.depth <;> simp_all
 
+
+/-! ### from well-formed worlds to the hypothesis of the refinement
+
+`wfNode` (`Find/Run.lean`) is what an observed world looks like; the driver's parser refuses anything else. -/
+
+theorem typed_leaf (c : RefCfg) (rp : List Name) (d : Nat) (nm : Name) (k : LeafKind) (a : Attr)
+    (hw : (wfLeaf k a || a.foreign) = true) (hno : (k == .linkLoop && c.follows d) = false) :
+    VisitTyped c (mkVisit c rp d (.leaf nm k a)) := by
+  unfold VisitTyped
+  rw [mkVisit_node]
+  simp only
+  intro hft
+  cases hfo : a.foreign
+  · exfalso
+    simp only [hfo, Bool.or_false] at hw
+    have hfc : c.follow = .never ∨ c.follow = .roots ∨ c.follow = .always := by cases c.follow <;> simp
+    have hfol := follows_iff c d
+    cases k <;> rcases hfc with hf | hf | hf <;> cases hD : (d == 0) <;>
+      simp_all [wfLeaf, mkVisit, fileType, attrOf, followAt, LeafKind.isLink, RefCfg.follows]
+    all_goals
+      split at hft
+      · exact absurd hft (by decide)
+      · split at hft
+        · exact absurd hft (by decide)
+        · exact hw.1.2 hft
+  · rfl
+
+theorem typed_dir (c : RefCfg) (rp : List Name) (d : Nat) (nm : Name) (l r : Bool) (a : Attr) (kids : List (Node Attr))
+    (hw : wfDir l a = true) : VisitTyped c (mkVisit c rp d (.dir nm l r a kids)) := by
+  unfold VisitTyped
+  rw [mkVisit_node, mkVisit_depth]
+  simp only
+  intro hl
+  have hfc : c.follow = .never ∨ c.follow = .roots ∨ c.follow = .always := by cases c.follow <;> simp
+  cases l <;> rcases hfc with hf | hf | hf <;> cases hD : (d == 0) <;>
+    simp_all [wfDir, mkVisit, fileType, attrOf, followAt, RefCfg.follows]
+
+
+theorem pruneOkV_of_typed (c : RefCfg) (m : M Prim) (start : Bytes) (v : Visit Attr) (hv : VisitTyped c v) :
+    PruneOkV c (evalEntry m start) v := by
+  intro g h
+  have := prune_only_pushed c m start v g hv h
+  cases hn : v.ent.node with
+  | leaf nm k a => simp only [hn] at this
+  | dir nm l r a kids => simp only [hn] at this ⊢; exact this
+
+mutual
+/-- a well-formed tree gives the refinement its hypothesis, whatever the expression -/
+theorem pruneOkN_of_wf (c : RefCfg) (m : M Prim) (start : Bytes) (rp : List Name) (d : Nat) (n : Node Attr)
+    (hw : wfNode n = true) : PruneOkN c (evalEntry m start) rp d n := by
+  match n with
+  | .leaf nm k a =>
+    intro hno
+    exact pruneOkV_of_typed c m start _ (typed_leaf c rp d nm k a (by simpa [wfNode] using hw) hno)
+  | .dir nm l r a kids =>
+    simp only [wfNode, Bool.and_eq_true] at hw
+    exact ⟨pruneOkV_of_typed c m start _ (typed_dir c rp d nm l r a kids hw.1),
+      pruneOkK_of_wf c m start rp (d + 1) kids hw.2⟩
+theorem pruneOkK_of_wf (c : RefCfg) (m : M Prim) (start : Bytes) (rp : List Name) (d : Nat) (kids : List (Node Attr))
+    (hw : wfNode.wfKids kids = true) : PruneOkN.PruneOkK c (evalEntry m start) rp d kids := by
+  match kids with
+  | [] => trivial
+  | n :: ns =>
+    simp only [wfNode.wfKids, Bool.and_eq_true] at hw
+    exact ⟨pruneOkN_of_wf c m start (n.name :: rp) d n hw.1, pruneOkK_of_wf c m start rp d ns hw.2⟩
+end
+
+/-! `-xdev` and `-sorted` keep a tree well formed -/
+
+mutual
+theorem wf_cutNode (fl : Bool) (dev : Nat) (n : Node Attr) (hw : wfNode n = true) : wfNode (cutNode fl dev n) = true := by
+  match n with
+  | .leaf nm k a => simpa [cutNode] using hw
+  | .dir nm l r a kids =>
+    simp only [wfNode, Bool.and_eq_true] at hw
+    simp only [cutNode]
+    split
+    · simp [wfNode]
+    · simp only [wfNode, Bool.and_eq_true]
+      exact ⟨hw.1, wf_cutKids fl dev kids hw.2⟩
+theorem wf_cutKids (fl : Bool) (dev : Nat) (kids : List (Node Attr)) (hw : wfNode.wfKids kids = true) :
+    wfNode.wfKids (cutKids fl dev kids) = true := by
+  match kids with
+  | [] => simp [cutKids, wfNode.wfKids]
+  | n :: ns =>
+    simp only [wfNode.wfKids, Bool.and_eq_true] at hw
+    simp only [cutKids, wfNode.wfKids, Bool.and_eq_true]
+    exact ⟨wf_cutNode fl dev n hw.1, wf_cutKids fl dev ns hw.2⟩
+end
+
+theorem wf_cutRoot (f : Follow) (n : Node Attr) (hw : wfNode n = true) : wfNode (cutRoot f n) = true := by
+  match n with
+  | .leaf nm k a => simpa [cutRoot] using hw
+  | .dir nm l r a kids =>
+    simp only [wfNode, Bool.and_eq_true] at hw
+    simp only [cutRoot, wfNode, Bool.and_eq_true]
+    exact ⟨hw.1, wf_cutKids _ _ kids hw.2⟩
+
+theorem wfKids_insert (x : Node Attr) (ks : List (Node Attr)) (hx : wfNode x = true) (hk : wfNode.wfKids ks = true) :
+    wfNode.wfKids (insertNode x ks) = true := by
+  induction ks with
+  | nil => simp [insertNode, wfNode.wfKids, hx]
+  | cons k ks ih =>
+    simp only [wfNode.wfKids, Bool.and_eq_true] at hk
+    simp only [insertNode]
+    split
+    · simp [wfNode.wfKids, hx, hk.1, hk.2]
+    · simp [wfNode.wfKids, hk.1, ih hk.2]
+
+mutual
+theorem wf_sortNode (n : Node Attr) (hw : wfNode n = true) : wfNode (sortNode n) = true := by
+  match n with
+  | .leaf nm k a => simpa [sortNode] using hw
+  | .dir nm l r a kids =>
+    simp only [wfNode, Bool.and_eq_true] at hw
+    simp only [sortNode, wfNode, Bool.and_eq_true]
+    exact ⟨hw.1, wf_sortKids kids hw.2⟩
+theorem wf_sortKids (kids : List (Node Attr)) (hw : wfNode.wfKids kids = true) : wfNode.wfKids (sortKids kids) = true := by
+  match kids with
+  | [] => simp [sortKids, wfNode.wfKids]
+  | n :: ns =>
+    simp only [wfNode.wfKids, Bool.and_eq_true] at hw
+    simp only [sortKids]
+    exact wfKids_insert _ _ (wf_sortNode n hw.1) (wf_sortKids ns hw.2)
+end
+
+/-- the tree `process_dir` walks for a starting point: cut by `-xdev` (done by `run`), sorted by `-sorted` -/
+def viewOf (c : Config) (root : Node Attr) : Node Attr :=
+  let n := if c.xdev then cutRoot c.follow root else root
+  if c.sorted then sortNode n else n
+
+theorem wf_viewOf (c : Config) (root : Node Attr) (hw : wfNode root = true) : wfNode (viewOf c root) = true := by
+  unfold viewOf
+  have h1 : wfNode (if c.xdev then cutRoot c.follow root else root) = true := by
+    split
+    · exact wf_cutRoot _ _ hw
+    · exact hw
+  simp only
+  split
+  · exact wf_sortNode _ h1
+  · exact h1
+
+/-- **Pre-order, whole starting point, any expression, any options** (`-xdev`, `-sorted`, depth
+    bounds, `-P`/`-H`/`-L`): on a well-formed world `process_dir` over walkdir's iterator computes
+    exactly the reference traversal - a pruned directory loses exactly its descendants, everything
+    else is visited in listing order.  No hypothesis on the evaluator is left. -/
+theorem order_pre_wf (c : Config) (m : M Prim) (start : Bytes) (root : Node Attr) (g : GS)
+    (hpre : c.depthFirst = false) (hw : wfNode root = true) :
+    processRoot (refCfg c) (evalEntry m start) (viewOf c root) g =
+      (let r := refRoot (refCfg c) (evalEntry m start) (viewOf c root) ⟨g, 0, 0⟩
+       resOf r.1 r.2) :=
+  processRoot_preN (refCfg c) (evalEntry m start) hpre (viewOf c root)
+    (pruneOkN_of_wf (refCfg c) m start [] 0 (viewOf c root) (wf_viewOf c root hw)) g
+
 end FuModel.Find.Run
